@@ -478,6 +478,93 @@ def check_latest_wins():
     return problems
 
 
+def check_hook_independence():
+    """elaborate_frame/customize and unwrap_context_generator are separate dispatchers: registrations for the SAME
+    generator-based manager function, in either order, each apply to their own hook and to no other."""
+    import contextlib
+    import stackscope
+    problems = []
+
+    class Inner(object):
+        def __enter__(s):
+            return s
+
+        def __exit__(s, *exc):
+            return False
+
+    SRC = "def managed():\n    inner = Inner()\n    with inner:\n        yield inner\n"
+
+    def fresh():
+        # registrations are keyed by code object: every case gets a code object of its own
+        ns = {"Inner": Inner}
+        exec(compile(SRC, "<c12 managed>", "exec"), ns)
+        return contextlib.contextmanager(ns["managed"])
+
+    def user(managed):
+        with managed():
+            return stackscope.extract_since(sys._getframe(0))
+
+    def look(managed):
+        gen = managed.__wrapped__()
+        next(gen)
+        try:
+            st = stackscope.extract(gen)
+        finally:
+            gen.close()
+        ctx = user(managed).frames[0].contexts[0]
+        return st, ctx
+
+    def unwrapper(frame, context):
+        return frame.pyframe.f_locals["inner"]
+    options = ({"hide": True}, {"hide_line": True}, {"prune": True}, {"hide": True, "hide_line": True, "prune": True})
+    for opts in options:
+        for order in ("customize-first", "unwrap-first", "customize-only", "unwrap-only", "elaborate-first", "elaborate-last"):
+            m = fresh()
+            tag = "%s %r" % (order, sorted(opts))
+            seen = []
+
+            def elab(frame, next_inner):
+                seen.append(frame.funcname)
+                for k in ("hide", "hide_line"):
+                    if opts.get(k):
+                        setattr(frame, k, True)
+                return stackscope.PRUNE if opts.get("prune") else None
+            if order == "customize-first":
+                stackscope.customize(m, **opts)
+                stackscope.unwrap_context_generator.register(m, unwrapper)
+            elif order == "unwrap-first":
+                stackscope.unwrap_context_generator.register(m, unwrapper)
+                stackscope.customize(m, **opts)
+            elif order == "customize-only":
+                stackscope.customize(m, **opts)
+            elif order == "unwrap-only":
+                stackscope.unwrap_context_generator.register(m, unwrapper)
+            elif order == "elaborate-first":
+                stackscope.elaborate_frame.register(m, elab)
+                stackscope.unwrap_context_generator.register(m, unwrapper)
+            else:
+                stackscope.unwrap_context_generator.register(m, unwrapper)
+                stackscope.elaborate_frame.register(m, elab)
+            with warnings.catch_warnings():
+                warnings.simplefilter("ignore")
+                st, ctx = look(m)
+            has_frame_side = order != "unwrap-only"
+            has_ctx_side = order != "customize-only"
+            if st.error is not None or [f.funcname for f in st.frames] != ["managed"] or st.leaf is not None:
+                problems.append("%s: extract(generator) is %r" % (tag, st))
+                continue
+            f0 = st.frames[0]
+            if (f0.hide, f0.hide_line) != (bool(opts.get("hide")) and has_frame_side, bool(opts.get("hide_line")) and has_frame_side):
+                problems.append("%s: frame flags hide=%r hide_line=%r" % (tag, f0.hide, f0.hide_line))
+            if has_ctx_side:
+                if not isinstance(ctx.obj, Inner) or ctx.hide:
+                    problems.append("%s: the unwrap_context_generator registration did not apply (obj=%r hide=%r)" % (tag, ctx.obj, ctx.hide))
+            else:
+                if isinstance(ctx.obj, Inner) or ctx.hide or ctx.inner_stack is None or [f.funcname for f in ctx.inner_stack.frames] != ["managed"]:
+                    problems.append("%s: a frame-side registration leaked into the context side (obj=%r hide=%r inner=%r)" % (tag, ctx.obj, ctx.hide, ctx.inner_stack))
+    return problems
+
+
 def check_sibling_items():
     """customize options on a frame whose callees are SEVERAL stack items handed over together (by a hook of the frame
     outward of it): prune / an elaborate replacement must remove all of them, whatever their number."""
@@ -754,6 +841,11 @@ def run(ctx):
     ctx.count("evaluations")
     if problems:
         ctx.violation({"leg": "latest"}, "; ".join(problems), "latest")
+    problems = check_hook_independence()
+    ctx.count("evaluations", 24)
+    ctx.count("hook_independence_cases", 24)
+    if problems:
+        ctx.violation({"leg": "independence"}, "; ".join(problems)[:1500], "independence")
     problems = check_sibling_items()
     ctx.count("evaluations", 18)
     ctx.count("sibling_item_cases", 18)
@@ -771,6 +863,8 @@ def replay(case):
         return [{"detail": p} for p in check_customize(case)]
     if leg == "latest":
         return [{"detail": p} for p in check_latest_wins()]
+    if leg == "independence":
+        return [{"detail": p} for p in check_hook_independence()]
     if leg == "siblings":
         return [{"detail": p} for p in check_sibling_items()]
 
